@@ -10,6 +10,9 @@ TRUST = ("Trusted: Go type checker and go/ssa (x/tools v0.29.0), CHA/VTA call gr
 
 # id -> (technique, level text, design ref)   -- only properties whose check exists are listed here
 CLAIMS = {
+    "C14": ("dominance/path analysis over go/ssa of the cutting-planes search loop: top-level binding protocol of learned literals (retract, bind, conclude Unsat on conflict, rebuild the heap) in every search loop, failure sentinel of the analyser leads to Unsat, learned constraint recorded as reason, drop-implies-unwatch, growth of the per-variable buffers",
+            "Decides only the structural clauses of the pseudo-boolean search loop (it treats learned facts, reasons, deletions and buffers as the clause-learning loop does). Everything arithmetic about the strategy (cancelling addition, weakening, division, slack, backjump level: that learned constraints are implied and answers unchanged) is NOT decided; most conceivable defects of the strategy are of that kind.",
+            "DESIGN.md section 5, C14"),
     "C02": ("precondition discharge for the panicking constraint constructors at every reachable call site (difference-bound reasoning over dominating branch facts, lifted through wrappers); scan-accounting analysis of every cursor<bound loop (each trip advances, shrinks or leaves); algebraic identities of the normalisers GtEq/LtEq/AtMost/AtMost1/Eq/Exactly1 by linear forms",
             "Decides that trivially true/false constraints are handled rather than rejected in both constraint front-ends, that the parse-time simplifiers account for every literal exactly once, and that the normalisers perform the stated sign/degree bookkeeping. Necessary conditions; slack propagation and watch maintenance are not decided.",
             "DESIGN.md section 5, C02"),
@@ -70,7 +73,6 @@ CLAIMS = {
 }
 
 NOT_APPLICABLE = {
-    "C14": "every clause (same verdict, same optimum, learned constraints implied, termination) is arithmetic over coefficients met during search; no structural necessary condition specific to cutting planes exists that static analysis here can decide (DESIGN.md section 5, C14)",
 }
 
 PENDING_REASON = "static check for this property is not built yet in this revision (planned in DESIGN.md section 5); not claimed until it exists"
